@@ -6,9 +6,9 @@
           simple command (`Runner.call`), its status comes from an oracle.  The context may become
           cancelled at any step boundary: after a given number of model steps (`cancelAt`) or while
           a given atom runs (`cancelAtom`, what the harness does from a CallHandler).
-          The model mirrors the code as it is: the word-list `for` has no stop check of its own and
-          walks through its remaining items; the C-style `for` leaves through `!r.exit.ok()`;
-          `while`/`until` leave at the loop head.
+          The model mirrors the code as it is: the word-list `for` checks `stop()` at the top of
+          every iteration (since 7ead8d8; before, it walked through its remaining items); the
+          C-style `for` leaves through `!r.exit.ok()`; `while`/`until` leave at the loop head.
   Part 2: shapes of the regenerated table of blocking operations in package interp and the
           wait-for reasoning over it.
   Core Lean only.
@@ -93,7 +93,9 @@ def exec (e : Env) : Nat → Sk → St → Option St
       if cancelled e st then some (halt e st) else exec e f (.forItems n b) (tick e { st with ok := true })
   | _ + 1, .forItems 0 _, st => some st
   | f + 1, .forItems (k + 1) b, st =>
-      -- setVarString + trace line, no stop check here: the body's statements check
+      -- `if r.stop(ctx) { break }` at the top of every iteration (since 7ead8d8), then
+      -- setVarString + trace line + body
+      if cancelled e st then some (halt e st) else
       match exec e f b (tick e { st with items := st.items + 1 }) with
       | none => none
       | some st1 => exec e f (.forItems k b) st1
@@ -154,8 +156,8 @@ def unwind : Sk → Nat
   | .ifc c t e => 1 + unwind c + unwind t + unwind e
   | .whileL _ c b => 1 + (unwind c + unwind b + 2)
   | .whileIter _ c b => unwind c + unwind b + 2
-  | .forW n b => 1 + n * (1 + unwind b)
-  | .forItems k b => k * (1 + unwind b)
+  | .forW _ b => 1 + (unwind b + 2)
+  | .forItems _ b => unwind b + 2
   | .forC _ b => 1 + (2 * unwind b + 6)
   | .forCIter _ _ b => 2 * unwind b + 6
   | .sub b => 1 + unwind b
@@ -167,8 +169,8 @@ def depth : Sk → Nat
   | .ifc c t e => 1 + max (depth c) (max (depth t) (depth e))
   | .whileL _ _ _ => 2
   | .whileIter _ _ _ => 1
-  | .forW n b => 2 + n + depth b
-  | .forItems k b => 1 + k + depth b
+  | .forW _ _ => 2
+  | .forItems _ _ => 1
   | .forC _ b => 4 + depth b
   | .forCIter _ _ b => 3 + depth b
   | .sub b => 1 + depth b
